@@ -29,6 +29,7 @@ TOL_US = 5000
 # a plain float run of the cron loop on the zero-latency virtual clock can livelock on IEEE rounding vs. the
 # microsecond truncation of the clock; counterexamples are therefore also replayed exactly (see DESIGN.md)
 ALLOW_PINNED_REPLAY = True
+PLAIN_REPLAY_TIMEOUT = 6
 BOUNDS = {'quick': {'start window': 'any microsecond within +-3 s of a configured boundary (or of midnight)',
                     'observations': 'start + 1 symbolic instant <= 8 s later (<= 1 boundary crossing) + reconfig',
                     'configs': 'catalog of 10 TimeDate/TimeSpan configurations, 3 base dates, local/UTC',
